@@ -73,6 +73,7 @@ def c02(tier, seed):
         scs.append(S(crop, soil, seed=rnd.randrange(10 ** 6), events=ev, field=fm, irr=irr, off_season=rnd.random() < 0.5,
                      lead=rnd.choice([0, 12]), regime=rnd.choice(["warm", "wet", "arid"]),
                      soil_spec={"type": soil, "kw": {"adj_cn": rnd.choice([0, 1])}}))
+    scs += L.hard_cases(rnd)
     return scs
 
 
